@@ -7,6 +7,7 @@ import QModel.WF
 import QModel.Pipeline
 import QModel.Skeleton
 import QModel.Calib
+import QProofs.KernelSig
 import QModel.Validate
 import QModel.Serialize
 import QModel.Eval
@@ -500,6 +501,14 @@ def handle (j : Json) : Except String Json := do
         | .ok (m', tbl) => Json.mkObj [("ok", modelToJson m'), ("params", Json.arr (tbl.map paramToJson).toArray),
                                         ("wf", Json.bool (WF.modelOK m')),
                                         ("skeleton", Json.bool (Skeleton.sameModelSkeleton env.model m')),
+                                        -- the ASSUMED kernel-signature table (QProofs/KernelSig.lean) on the input and on the output: the
+                                        -- harness runs the same output on the real interpreter, which is what validates the table
+                                        ("ksig_in", Json.bool (KernelSig.modelOK env.model)),
+                                        ("ksig", Json.bool (KernelSig.modelOK m')),
+                                        ("ksig_sigs", Json.arr ((KernelSig.modelSigs m').eraseDups.map fun s => match s with
+                                            | some (c, ins, outs) => Json.arr #[toJson c, toJson (ins.map fun d => d.getD 255), toJson (outs.map fun d => d.getD 255),
+                                                                              Json.bool (KernelSig.sigOK s)]
+                                            | none => Json.null).toArray),
                                         -- the hypothesis NF of the end-to-end theorems (C01.quantize_wf, C02.quantize_skeleton), field by field
                                         ("nf", Json.mkObj ((NFCheck.report env st).map fun p => (p.1, Json.bool p.2))),
                                         -- hypotheses of the C06 evaluation theorems, per subgraph of the model's output
